@@ -85,8 +85,8 @@ class Gen:
         m.append({"k": U("strs"), "v": {"t": "A", "e": [strdoc(self.r.choice(["b", "a", "ab", "", "c", "a<b"])) for _ in range(self.r.randint(0, 4))]}})
         m.append({"k": U("obj"), "v": {"t": "O", "m": [{"k": U(k), "v": self.doc(1)} for k in self.r.sample(KEYS, self.r.randint(0, 4))]}})
         recs = []
-        for _ in range(self.r.randint(0, 4)):
-            mem = [{"k": U("year"), "v": self.r.choice([numdoc(16 * 2019), numdoc(16 * 2020), strdoc("20<21"), {"t": "T"}])}, {"k": U("m"), "v": self.scalar()}]
+        for _ in range(self.r.randint(0, 4)):      # group names include prefixes of one another and the empty name
+            mem = [{"k": U("year"), "v": self.r.choice([numdoc(16 * 2019), numdoc(16 * 2020), strdoc("20<21"), {"t": "T"}, numdoc(16 * 202), strdoc("20"), strdoc("")])}, {"k": U("m"), "v": self.scalar()}]
             if self.r.random() < 0.5:
                 mem.reverse()
             if self.r.random() < 0.4:
